@@ -13,6 +13,14 @@ CHECK = {
     "required_categories": [
         "algebra_exhaustive",
         "eq_double", "eq_float", "eq_int", "gt_double", "gt_float", "gt_int", "lt_double", "lt_float", "lt_int",
+        "eq_long_double", "gt_long_double", "lt_long_double", "eq_short", "gt_short", "lt_short",
+        "eq_long_long", "gt_long_long", "lt_long_long", "eq_unsigned", "gt_unsigned", "lt_unsigned",
+        "construct_3_arguments", "construct_4_arguments", "construct_from_temporaries", "construct_then_free_arguments",
+        "construct_alias_target_epsilon", "evaluate_temporary", "evaluate_moved", "evaluate_then_free_argument",
+        "held_report_across_later_calls", "interleaved_sibling_checkup",
+        "history_2pow8_plus_k", "history_2pow16_plus_k", "append_history_2pow8_plus_k", "append_history_2pow16_plus_k",
+        "append_copy_constructed", "append_copy_assigned", "append_move_constructed", "append_move_assigned",
+        "append_self_assigned", "append_copy_source_kept", "append_rhs_is_left_operand",
         "reliability", "regime_exact", "regime_generic", "epsilon_zero",
         "value_on_threshold", "value_one_ulp_above", "value_one_ulp_below", "value_just_outside_band",
         "scale_tiny_subnormal", "scale_huge",
@@ -34,23 +42,36 @@ CHECK = {
         "worse.idempotent", "worseStatus.lists_le4_exhaustive", "allOK.lists_le4_exhaustive",
         "worseStatus.lists_random", "allOK.lists_random",
         "append.diagnostics_concatenated_in_order", "append.info_merged",
-        "band.disagreement_distance_over_band"],
+        "band.disagreement_distance_over_band",
+        "stability.held_report_unchanged_by_later_calls", "stability.report_unchanged_by_other_objects",
+        "value_categories.status_functions", "value_semantics.report_copy_behaves_as_original",
+        "value_semantics.copy_source_unaffected", "append.self_alias", "append.after_long_history"],
     "required_counters": ["algebra_pairs", "algebra_triples", "lists_exhaustive", "threshold_evaluations", "timeouts"],
     "rule": "case 0 = the complete status algebra (16 pairs, 64 triples, all 340 status lists of length 1..4); every other "
             "case is one of: (66%) a sequence of 1..8 evaluate/timeout steps on one CheckupEqualTo/GreaterThan/LowerThan "
-            "<double|float|int> object, (14%) a sequence of 1..8 evaluations on one CheckupReliability, (10%) a random status "
+            "<double|float|int|long double|short|long long|unsigned> object (built from lvalues, temporaries, heap arguments freed "
+            "right after construction, or one object for target and epsilon; 3- and 4-argument constructors; evaluate called with "
+            "lvalues, temporaries, moved and freed arguments; getReport through const and non-const access; 1 case in 300 starts with "
+            "an unobserved history of 2^8+k, 1 in 15000 of 2^16+k evaluations/timeouts; between steps a sibling check-up of the same "
+            "name or the neighbouring printing facilities are used and the report re-read; in 30% a report obtained mid-sequence is "
+            "kept bound and re-compared at the end), (14%) a sequence of 1..8 evaluations on one CheckupReliability, (10%) a random status "
             "list of length 1..20, (10%) a chain of 1..4 report appends with 0..20 diagnostics and 0..6 info keys each "
             "(small key pool to force duplicate keys; the left operand starts in each of the four states {no diagnostics, diagnostics} x "
-            "{no info, info}; the right operand is an lvalue, a const lvalue, a function-return temporary, a std::move'd object or a "
-            "real check-up's getReport()); with probability 0.12 an evaluation is preceded by calls that print other library types "
+            "{no info, info}; the right operand is an lvalue, a const lvalue, a function-return temporary, a std::move'd object, a "
+            "real check-up's getReport() or the left operand itself; the accumulated report is copy-/move-constructed/-assigned or "
+            "self-assigned between appends with the source overwritten and destroyed or kept and re-checked; 1 chain in 100 starts "
+            "with 2^8+k / 2^16+k repeated appends of an info-only report); with probability 0.12 an evaluation is preceded by calls that print other library types "
             "(WGS84/geodetic coordinates, statuses, diagnostics, optionals, strings, wide doubles) through setReportInfo / "
             "toStringInfoValue / a local stream on the same thread.  (target, epsilon) are either dyadic (a*2^-k, b*2^-k, |a|,b <= 2^20, k "
             "from moderate, subnormal and huge ranges, epsilon 0 in 20%) so that the thresholds are exactly representable, or "
-            "generic (log-uniform magnitudes 1e-6..1e6, subnormal, near the type's maximum); values are the threshold itself, "
+            "generic (log-uniform magnitudes 1e-6..1e6, subnormal, near the type's maximum: the unchanged code stays correct for every "
+            "finite operand up to +-max, target+-epsilon may overflow to +-inf; reliability thresholds and values log-uniform over "
+            "the whole finite double range, denormals included; long double exact regime only); values are the threshold itself, "
             "nextafter on either side, 2..4 ulps off, grid neighbours, (generic regime) 8.5..1e4 eps*max(|t|,|e|) off i.e. just outside "
             "the ambiguity band, the target, far values, 0 and +-max; with probability 0.35 the next value of a sequence is instead a near-duplicate of the "
-            "previous one (same value again, the other signed zero, nextafter up/down, previous +- a log-spaced delta, +-0); int operands keep "
-            "|target| <= 2^30, epsilon < 2^30; non-trivial = a threshold sequence with at least one value on / within 4 ulps "
+            "previous one (same value again, the other signed zero, nextafter up/down, previous +- a log-spaced delta, +-0); integer operands keep "
+            "target+-epsilon representable in the promoted type (int: |t|,e < 2^30; long long: < 2^62; unsigned: e <= t < 2^31; short: "
+            "whole range) and values over the whole range of the type; non-trivial = a threshold sequence with at least one value on / within 4 ulps "
             "/ within 1e4 eps*max of a threshold or an evaluation after a timeout or a near-duplicate successor, a status list longer than 4 with >= 2 distinct statuses, an "
             "append chain of >= 2 operands or with duplicate keys (none of which the unit tests contain)",
     "level_text": "exploration, with an exhaustive part: the status algebra (worse over all 16 pairs and 64 triples, "
@@ -73,10 +94,20 @@ CHECK = {
         "rounded threshold is within eps/2*|t+-e| <= eps*max of the real one, so the reported ratio "
         "band.disagreement_distance_over_band (largest distance at which the library and the real verdict differ, over the "
         "band) is bounded by 0.125 and approaches it",
-        "int check-ups: |target| <= 2^30 and epsilon < 2^30 so that target+-epsilon does not overflow int (signed overflow "
-        "of the threshold expression itself is outside the domain exercised)",
+        "integer check-ups: target and epsilon are kept where target-epsilon and target+epsilon are representable in the "
+        "promoted type of the scalar (int: |t|, e <= 2^30-1; long long: <= 2^62-1; unsigned: e <= t <= 2^31-1; short: whole range, "
+        "the arithmetic is done in int): outside, the threshold expression itself overflows (undefined for signed types, "
+        "wrap-around for unsigned: e.g. CheckupEqualTo<int>(INT_MAX, 1).evaluate(INT_MAX) says 'too high'); the library only "
+        "instantiates double, so this is treated as a precondition, not as a finding",
+        "long double check-ups are checked in the exact (dyadic) regime only: the oracle's own arithmetic is long double and "
+        "cannot referee long double rounding; under the memcheck flavour (64-bit long double emulation) oracle verdicts are not used",
+        "r += r (the same object on both sides) is exercised and must double the diagnostics and keep the info; the library "
+        "implements it with std::list::insert(end, first, last) on its own range, which the C++ standard leaves undefined but "
+        "libstdc++ implements through a temporary list; no failure is observable with this toolchain",
+        "check-ups hold a std::mutex and are neither copyable nor movable: value semantics is exercised on DiagnosticReport only",
+        "statuses outside the four enumerators are only printed (toString -> \"\"), never combined",
         "low <= high for the reliability check-up; worseStatus/allOK are called on non-empty lists only (the library asserts "
-        "this); a report is never appended to itself",
+        "this)",
         "info value reference = printf(\"%g\") of the value (float promoted to double), \"%d\" for int; message verdict = "
         "the text after the name contains exactly the verdict word low/high/OK/uncertain (reliability OK: high or OK)",
         "after timeout() only: one diagnostic, one info entry, status STALE, message names the quantity and carries no "
